@@ -27,7 +27,7 @@ from lib.common import enc_list, enc_str
 # part 1: patch()
 # ----------------------------------------------------------------------------------------------
 
-LOADED, LAZY, MISSING, LOCAL = "c20_loaded_mod", "c20_lazy_mod", "c20_missing_mod", "c20_local_mod"
+LOADED, LAZY, MISSING, LOCAL, PKG = "c20_loaded_mod", "c20_lazy_mod", "c20_missing_mod", "c20_local_mod", "c20_pkg"
 # abstract slot (module id, attribute id) -> python target string
 SLOT_NAMES = {
     (0, 0): "snowflake.connector.connect", (1, 0): "snowflake.connector.pandas_tools.write_pandas",
@@ -36,20 +36,22 @@ SLOT_NAMES = {
     (3, 0): f"{LAZY}.connect", (3, 1): f"{LAZY}.write_pandas", (3, 2): f"{LAZY}.other", (3, 3): f"{LAZY}.zero", (3, 4): f"{LAZY}.sf_connect",
     (3, 9): f"{LAZY}.nope",
     (4, 0): f"{LOCAL}.connect", (4, 1): f"{LOCAL}.write_pandas",
+    (5, 0): f"{PKG}.sub.connect", (5, 1): f"{PKG}.sub.write_pandas",
     (9, 0): f"{MISSING}.x",
 }
-KINDS = [(0, 0), (2, 0), (2, 1), (2, 2), (2, 3), (2, 4), (2, 5), (2, 6), (2, 9), (3, 0), (3, 1), (3, 2), (3, 4), (3, 9), (4, 0), (4, 1), (9, 0)]
+KINDS = [(0, 0), (2, 0), (2, 1), (2, 2), (2, 3), (2, 4), (2, 5), (2, 6), (2, 9), (3, 0), (3, 1), (3, 2), (3, 4), (3, 9), (4, 0), (4, 1), (5, 0), (5, 1), (9, 0)]
 KIND_LABEL = {(0, 0): "standard(dup)", (2, 0): "from-import connect", (2, 1): "from-import write_pandas", (2, 2): "non-snowflake fn",
               (2, 3): "falsy attr", (2, 4): "already a MagicMock", (2, 5): "aliased from-import connect", (2, 6): "aliased from-import write_pandas",
               (2, 9): "missing attr", (3, 0): "lazy module connect", (3, 1): "lazy module write_pandas", (3, 2): "lazy module non-snowflake",
               (3, 4): "lazy module aliased connect", (3, 9): "lazy module missing attr",
+              (5, 0): "lazy dotted submodule connect", (5, 1): "lazy dotted submodule write_pandas",
               (4, 0): "non-snowflake fn named connect", (4, 1): "non-snowflake fn named write_pandas", (9, 0): "missing module"}
 # second block of the re-entry pairs: one representative per way a target can behave
-PAIR_SECOND = [(), ((2, 0),), ((2, 5),), ((3, 0),), ((3, 4),), ((4, 0),), ((2, 9),), ((9, 0),)]
-OBSERVED = [(0, 0), (1, 0), (2, 0), (2, 1), (2, 2), (2, 3), (2, 4), (2, 5), (2, 6), (3, 0), (3, 1), (3, 2), (3, 3), (3, 4), (4, 0), (4, 1)]
+PAIR_SECOND = [(), ((2, 0),), ((2, 5),), ((3, 0),), ((5, 0),), ((4, 0),), ((2, 9),), ((9, 0),)]
+OBSERVED = [(0, 0), (1, 0), (2, 0), (2, 1), (2, 2), (2, 3), (2, 4), (2, 5), (2, 6), (3, 0), (3, 1), (3, 2), (3, 3), (3, 4), (4, 0), (4, 1), (5, 0), (5, 1)]
 ENV0 = "0.0=Rc;1.0=Rw;2.0=Rc;2.1=Rw;2.2=O1;2.3=F;2.4=U;2.5=Rc;2.6=Rw;4.0=O3;4.1=O4"
 LOADED0 = "0;1;2;4"
-IMPORTABLE0 = "3:0=Sc,1=Sw,2=O2,3=F,4=Sc"
+IMPORTABLE0 = "3:0=Sc,1=Sw,2=O2,3=F,4=Sc;5:0=Sc,1=Sw"
 
 LOADED_SRC = """from unittest.mock import MagicMock
 from snowflake.connector import connect
@@ -106,6 +108,12 @@ class _PatchWorld:
             f.write(LAZY_SRC)
         with open(os.path.join(self.dir, LOCAL + ".py"), "w") as f:
             f.write(LOCAL_SRC)
+        # a scratch package whose submodule `sub` (dotted target `c20_pkg.sub.connect`) is not imported yet
+        os.mkdir(os.path.join(self.dir, PKG))
+        with open(os.path.join(self.dir, PKG, "__init__.py"), "w") as f:
+            f.write("")
+        with open(os.path.join(self.dir, PKG, "sub.py"), "w") as f:
+            f.write(LAZY_SRC)
         sys.path.insert(0, self.dir)
         sys.dont_write_bytecode = True
         self.sc, self.pt = snowflake.connector, pt
@@ -126,6 +134,8 @@ class _PatchWorld:
         for k, v in self.local_attrs.items():
             setattr(self.local, k, v)
         sys.modules.pop(LAZY, None)
+        sys.modules.pop(PKG + ".sub", None)
+        sys.modules.pop(PKG, None)
 
     def code(self, slot) -> str:
         from unittest.mock import MagicMock
@@ -166,34 +176,65 @@ def _conn_state(conn) -> str:
         return "closed"
 
 
+EXIT_LABEL = {"n": "ends", "r": "raises an Exception", "b": "raises a BaseException (not an Exception)", "g": "is in a generator that gets closed"}
+
+
+class _BaseBoom(BaseException):
+    """a BaseException that is not an Exception (like pytest's skip / fail outcomes)"""
+
+
+# what the body raises for exit kind "b", cycling
+BASE_EXCS = [_BaseBoom, KeyboardInterrupt, SystemExit]
+
+
 def _real_patch_case(pw: _PatchWorld, case) -> list[dict]:
-    """case = {"runs": [{"extras": [[m,a],…], "exit": "n"|"r", "nested": None|[[m,a],…], "form": "list"|"tuple"|"seq"|"str"}]}"""
+    """case = {"runs": [{"extras": [[m,a],…], "exit": "n"|"r"|"b"|"g", "nested": None|[[m,a],…], "form": "list"|"tuple"|"seq"|"str"}]}
+    exit kinds: n = body ends, r = body raises an Exception, b = body raises a BaseException that is not an Exception (cycling
+    through a custom one, KeyboardInterrupt, SystemExit), g = the block sits in a generator that is closed (GeneratorExit)."""
     import fakesnow
     pw.reset()
     out = []
-    for run in case["runs"]:
+    for k, run in enumerate(case["runs"]):
         names = [SLOT_NAMES[tuple(s)] for s in run["extras"]]
         form = run.get("form", "list")
         arg = {"list": names, "tuple": tuple(names), "seq": _Targets(names), "str": names[0] if len(names) == 1 else names}[form]
         rec = {"inside": "-", "nested": "-", "nested_unchanged": "-", "conn": "-"}
-        conn = None
-        try:
+        held = {"conn": None}
+        base_exc = BASE_EXCS[(len(names) + k + len(case["runs"])) % len(BASE_EXCS)]
+
+        def body():
+            rec["inside"] = pw.observe()
+            held["conn"] = pw.sc.connect()
+            if run["nested"] is not None:
+                before = pw.observe()
+                try:
+                    with fakesnow.patch([SLOT_NAMES[tuple(s)] for s in run["nested"]]):
+                        rec["nested"] = "entered"
+                except AssertionError as e:
+                    rec["nested"] = "refused" if "already patched" in str(e) else f"AssertionError:{e}"
+                except BaseException as e:  # noqa: BLE001
+                    rec["nested"] = f"{type(e).__name__}"
+                rec["nested_unchanged"] = "1" if (pw.observe() == before and _conn_state(held["conn"]) == "open") else "0"
+
+        def in_generator():
             with fakesnow.patch(arg):
-                rec["inside"] = pw.observe()
-                conn = pw.sc.connect()
-                if run["nested"] is not None:
-                    before = pw.observe()
-                    try:
-                        with fakesnow.patch([SLOT_NAMES[tuple(s)] for s in run["nested"]]):
-                            rec["nested"] = "entered"
-                    except AssertionError as e:
-                        rec["nested"] = "refused" if "already patched" in str(e) else f"AssertionError:{e}"
-                    except BaseException as e:  # noqa: BLE001
-                        rec["nested"] = f"{type(e).__name__}"
-                    rec["nested_unchanged"] = "1" if (pw.observe() == before and _conn_state(conn) == "open") else "0"
-                if run["exit"] == "r":
-                    raise _Boom()
-            rec["outcome"] = "completed"
+                body()
+                yield
+
+        try:
+            if run["exit"] == "g":
+                g = in_generator()
+                next(g)
+                g.close()          # GeneratorExit is thrown at the yield inside the with block
+                rec["outcome"] = "bodyRaised"
+            else:
+                with fakesnow.patch(arg):
+                    body()
+                    if run["exit"] == "r":
+                        raise _Boom()
+                    if run["exit"] == "b":
+                        raise base_exc()
+                rec["outcome"] = "completed"
         except _Boom:
             rec["outcome"] = "bodyRaised"
         except ModuleNotFoundError:
@@ -201,10 +242,13 @@ def _real_patch_case(pw: _PatchWorld, case) -> list[dict]:
         except AssertionError as e:
             rec["outcome"] = "refused" if "already patched" in str(e) else "setupFailed:assert"
         except BaseException as e:  # noqa: BLE001
-            rec["outcome"] = f"X:{type(e).__name__}:{e}"[:200]
+            if run["exit"] == "b" and type(e) is base_exc and rec["inside"] != "-":
+                rec["outcome"] = "bodyRaised"
+            else:
+                rec["outcome"] = f"X:{type(e).__name__}:{e}"[:200]
         rec["after"] = pw.observe()
-        if conn is not None:
-            rec["conn"] = _conn_state(conn)
+        if held["conn"] is not None:
+            rec["conn"] = _conn_state(held["conn"])
         out.append(rec)
     pw.reset()
     return out
@@ -233,22 +277,25 @@ def _patch_cases(chk) -> list[dict]:
         return {"extras": [list(s) for s in extras], "exit": exit_, "nested": None if nested is None else [list(s) for s in nested], "form": form}
 
     maxlen = 2 if chk.tier == "quick" else 3
+    # exit kinds: n = body ends, r = Exception, b = BaseException (not an Exception), g = enclosing generator closed
+    abnormal = itertools.cycle("rbg")
     for L in range(0, maxlen + 1):
         for ex in itertools.product(KINDS, repeat=L):
-            for x in "nr":
-                if L <= 1:     # every container type for the empty and the one-element lists
+            if L <= 1:     # every exit kind × every container type for the empty and the one-element lists
+                for x in "nrbg":
                     for f in (FORMS if L == 1 else FORMS[:3]):
                         cases.append({"runs": [run(ex, x, form=f)]})
-                else:
-                    cases.append({"runs": [run(ex, x)]})
+            else:          # the normal exit and one abnormal exit kind (cycling) for the longer lists
+                cases.append({"runs": [run(ex, "n")]})
+                cases.append({"runs": [run(ex, next(abnormal))]})
     if chk.tier == "quick":
         for _ in range(100):
-            cases.append({"runs": [run([rnd.choice(KINDS) for _ in range(3)], rnd.choice("nr"))]})
+            cases.append({"runs": [run([rnd.choice(KINDS) for _ in range(3)], rnd.choice("nrbg"))]})
     # re-entry after every way of leaving: all pairs (first: ≤1 extra × exit) then (second: a representative of each behaviour)
     singles = [()] + [(k,) for k in KINDS]
     for a in singles:
-        for x in "nr":
-            for b in PAIR_SECOND:
+        for x in "nrbg":
+            for b in (PAIR_SECOND if x in "nr" else PAIR_SECOND[:4]):
                 cases.append({"runs": [run(a, x), run(b, "n")]})
     # nesting
     for a in singles:
@@ -259,7 +306,7 @@ def _patch_cases(chk) -> list[dict]:
         runs = []
         for _ in range(rnd.randint(2, 4)):
             ex = [rnd.choice(KINDS) for _ in range(rnd.choice([0, 1, 1, 2, 2, 3]))]
-            runs.append(run(ex, rnd.choice("nnr"), nested=rnd.choice([None, None, None, [], [(2, 1)]])))
+            runs.append(run(ex, rnd.choice("nnrbg"), nested=rnd.choice([None, None, None, [], [(2, 1)]])))
         cases.append({"runs": runs})
     return cases
 
@@ -281,7 +328,7 @@ def _check_patch(chk, case, real, reply) -> None:
     spec = [r.split("|") for r in common.dec_list(reply["spec"])]
     shipped = [r.split("|") for r in common.dec_list(reply.get("shipped", "[]"))]
     label = " ; ".join(
-        f"patch({r.get('form', 'list')} [{', '.join(SLOT_NAMES[tuple(s)] for s in r['extras'])}]) body {'raises' if r['exit'] == 'r' else 'ends'}"
+        f"patch({r.get('form', 'list')} [{', '.join(SLOT_NAMES[tuple(s)] for s in r['extras'])}]) body {EXIT_LABEL[r['exit']]}"
         + ("" if r["nested"] is None else f" nested patch([{', '.join(SLOT_NAMES[tuple(s)] for s in r['nested'])}])") for r in case["runs"])
     fp = json.dumps(case["runs"], sort_keys=True)
     nontrivial = any(r["extras"] or r["nested"] is not None for r in case["runs"])
@@ -598,8 +645,8 @@ def _check_e2e(chk, args, real, reply) -> None:
 # ----------------------------------------------------------------------------------------------
 
 def run(chk) -> None:
-    chk.rule = ("patch: every list of ≤2 (quick) / ≤3 (thorough) extra targets over 17 target kinds (standard duplicate, from-import aliases, "
-                "aliased from-imports, non-snowflake functions incl. ones named connect/write_pandas, falsy/missing attribute, already a MagicMock, lazily imported module ×5, missing module; extra_targets given as list / tuple / other Sequence / str) × exit mode; all "
+    chk.rule = ("patch: every list of ≤2 (quick) / ≤3 (thorough) extra targets over 19 target kinds (standard duplicate, from-import aliases, "
+                "aliased from-imports, non-snowflake functions incl. ones named connect/write_pandas, falsy/missing attribute, already a MagicMock, lazily imported module ×5, not-yet-imported dotted submodule of a package ×2, missing module; extra_targets given as list / tuple / other Sequence / str) × exit kind (body ends / raises an Exception / raises a BaseException / enclosing generator closed); all "
                 "pairs of blocks (re-entry after every way of leaving); nested patch(); random histories of 2-4 blocks.  cli: exhaustive argv over "
                 "the 13-token alphabet (pure ≤4/5 tokens, end-to-end ≤3/4 tokens), adversarial tokens, random grammar sentences with up to 5 "
                 "target args.  non-trivial = distinct case with ≥1 extra target / nested block, or argv of ≥2 tokens")
